@@ -572,3 +572,45 @@ Proof.
   intros j Hj. apply (linear_ext (fun a => f a (2 ^ j)) (fun a => g a (2 ^ j)) n (Hf1 _) (Hg1 _)); [|exact Ha].
   intros i Hi. apply Hb; assumption.
 Qed.
+
+(* ---------- Part 5: polyvalDot = dot of RFC 8452 on all 128-bit field elements ---------- *)
+Definition fe_of_n (a : N) : fe := (N.land a (N.ones 64), N.land (N.shiftr a 64) (N.ones 64)).
+Definition n_of_fe' (x : fe) : N := N.lxor (fst x) (N.shiftl (snd x) 64).
+Definition dot_impl (a b : N) : N := n_of_fe' (polyvalDot (fe_of_n a) (fe_of_n b)).
+
+Lemma fe_of_n_lxor a b : fe_of_n (N.lxor a b) = fe_xor (fe_of_n a) (fe_of_n b).
+Proof. unfold fe_of_n, fe_xor. cbn [fst snd]. rewrite N.shiftr_lxor, !land_lxor_l. reflexivity. Qed.
+
+Lemma n_of_fe'_lxor x y : n_of_fe' (fe_xor x y) = N.lxor (n_of_fe' x) (n_of_fe' y).
+Proof. unfold n_of_fe', fe_xor. cbn [fst snd]. rewrite N.shiftl_lxor. xor_ac. Qed.
+
+Lemma dot_impl_lin_l b : linear (fun a => dot_impl a b).
+Proof. intros x y. unfold dot_impl. rewrite fe_of_n_lxor, polyvalDot_lxor_l. apply n_of_fe'_lxor. Qed.
+Lemma dot_impl_lin_r a : linear (dot_impl a).
+Proof. intros x y. unfold dot_impl. rewrite fe_of_n_lxor, polyvalDot_lxor_r. apply n_of_fe'_lxor. Qed.
+
+Definition range128 : list N := map N.of_nat (seq 0 128).
+
+Lemma range128_In i : i < 128 -> In i range128.
+Proof.
+  intros H. unfold range128. rewrite <- (Nnat.N2Nat.id i). apply in_map. apply in_seq. lia.
+Qed.
+
+Definition basis_check : bool :=
+  forallb (fun i => forallb (fun j => N.eqb (dot_impl (2 ^ i) (2 ^ j)) (dot_spec (2 ^ i) (2 ^ j))) range128) range128.
+
+Lemma basis_ok : basis_check = true.
+Proof. vm_compute. reflexivity. Qed.
+
+Theorem dot_impl_spec : forall a b, a < 2 ^ 128 -> b < 2 ^ 128 -> dot_impl a b = dot_spec a b.
+Proof.
+  apply bilinear_ext.
+  - exact dot_impl_lin_l.
+  - exact dot_impl_lin_r.
+  - intros b x y. apply dot_spec_lxor_l.
+  - intros a x y. apply dot_spec_lxor_r.
+  - intros i j Hi Hj. pose proof basis_ok as H. unfold basis_check in H.
+    rewrite forallb_forall in H. specialize (H i (range128_In i Hi)).
+    rewrite forallb_forall in H. specialize (H j (range128_In j Hj)).
+    apply N.eqb_eq. exact H.
+Qed.
